@@ -230,7 +230,7 @@ Step ==
              IN /\ UNCHANGED prog
                 /\ IF dead \/ ~s.ok                               \* a deadlock panics: the run is over
                    THEN /\ resB' = Append(resB, [res |-> res1, iters |-> Cardinality(scheds) + 1,
-                                                 repeat |-> r.e.sched \in scheds])
+                                                 repeat |-> r.e.sched \in scheds, scheds |-> scheds \cup {r.e.sched}])
                         /\ NextBound
                    ELSE /\ results' = res1 /\ scheds' = scheds \cup {r.e.sched}
                         /\ path' = s.p /\ ex' = Ex0
@@ -242,9 +242,7 @@ Spec == Init /\ [][Next]_dvars
 
 (* ------------------------------------------------------------ properties *)
 NoPanic == phase # "panic"
-NoRepeat == /\ (phase = "run" /\ ex.sched # <<>> => TRUE)
-            /\ \A i \in 1..Len(resB) : ~resB[i].repeat
-NoRepeatRun == phase = "run" => ~(\E s \in scheds : s = ex.sched /\ ex.active = 0)
+NoRepeat == \A i \in 1..Len(resB) : ~resB[i].repeat /\ resB[i].iters = Cardinality(resB[i].scheds)
 
 HasDead(S) == \E o \in S : o.end = "deadlock"
 \* a run that hits a deadlock stops there: it is complete if it reports the deadlock
@@ -253,13 +251,14 @@ IsUnbounded(i) == BoundList[i] = 99
 Complete == phase = "done" => \A i \in 1..Len(resB) : IsUnbounded(i) => /\ resB[i].res \subseteq RefOutcomes
                                                                          /\ Covers(resB[i].res, RefOutcomes)
 Sound == phase = "done" => \A i \in 1..Len(resB) : resB[i].res \subseteq RefOutcomes
-\* BoundList is increasing (99 = none last)
-Monotone == phase = "done" => \A i \in 1..(Len(resB) - 1) :
-               HasDead(resB[i].res) \/ HasDead(resB[i + 1].res) \/ resB[i].res \subseteq resB[i + 1].res
+\* 99 (no bound) is the largest bound
+Monotone == phase = "done" => \A i, j \in 1..Len(resB) :
+               BoundList[i] <= BoundList[j] =>
+                 (HasDead(resB[i].res) \/ HasDead(resB[j].res) \/ resB[i].res \subseteq resB[j].res)
 Saturates == phase = "done" => \A i \in 1..Len(resB) :
                (~IsUnbounded(i) /\ BoundList[i] >= NOps) => Covers(resB[i].res, RefOutcomes)
 
 Report == (Emit /\ phase = "done") =>
-            PrintT(<<"DPOR", ToJson([prog |-> prog, runs |-> [i \in 1..Len(resB) |->
-                        [bound |-> BoundList[i], iters |-> resB[i].iters, res |-> resB[i].res]]])>>)
+            PrintT(<<"DPOR", ToJson([prog |-> prog, ref |-> RefOutcomes, runs |-> [i \in 1..Len(resB) |->
+                        [bound |-> BoundList[i], iters |-> resB[i].iters, res |-> resB[i].res, scheds |-> resB[i].scheds]]])>>)
 =============================================================================
